@@ -705,7 +705,11 @@ func (w *walker) classify(fr *frame, c ast.Expr) (int, string) {
 			if mentions(c, func(n ast.Node) bool { s, ok := n.(*ast.SelectorExpr); return ok && s.Sel.Name == "Before" }) {
 				dir = "before"
 			}
-			return cCoolOff, dir
+			if dir == "before" {
+				// esm.MsgCollateralRedemption: refused while the cool-off period still runs (the opposite test)
+				return cOther, "coolOffRemains(before): " + src(c)
+			}
+			return cCoolOff, dir + ": " + src(c)
 		}
 		// every leaf must be esm-tainted
 		leaves := true
@@ -1638,6 +1642,16 @@ func main() {
 	for _, h := range hs {
 		fmt.Fprintf(&b, "def h_%s_%s : Handler := { module := %s, name := %s, msgType := %s, signer := %s, file := %s, line := %d, items := [\n",
 			h.module, h.name, q(h.module), q(h.name), q(h.msgType), q(h.signer), q(h.file), h.line)
+		// Items no obligation looks at are not printed: unclassified guards and further writes AFTER the first write of
+		// their route (the list of guards that precede the first write stays complete and ordered).
+		var kept []Item
+		for _, it := range h.items {
+			if it.wb && ((it.kind == kGuard && it.cls == cOther) || it.kind == kWrite) {
+				continue
+			}
+			kept = append(kept, it)
+		}
+		h.items = kept
 		for i, it := range h.items {
 			sep := ","
 			if i == len(h.items)-1 {
